@@ -91,8 +91,13 @@ static void exercise (SNDFILE *s, const SF_INFO *si, const char *route)
 		inv (s, "chunk queries") ;
 		}
 	{	double mx [1024] ; SF_BROADCAST_INFO bi ; SF_CART_INFO ca ; SF_INSTRUMENT ins ; SF_CUES cu ; SF_LOOP_INFO li ; int cm [1024] ; char log [2048] ; uint32_t cc ;
-		sf_command (s, SFC_GET_BROADCAST_INFO, &bi, sizeof (bi)) ; sf_command (s, SFC_GET_CART_INFO, &ca, sizeof (ca)) ; sf_command (s, SFC_GET_INSTRUMENT, &ins, sizeof (ins)) ;
-		sf_command (s, SFC_GET_CUE, &cu, sizeof (cu)) ; sf_command (s, SFC_GET_CUE_COUNT, &cc, sizeof (cc)) ; sf_command (s, SFC_GET_LOOP_INFO, &li, sizeof (li)) ; sf_command (s, SFC_GET_CHANNEL_MAP_INFO, cm, ch * sizeof (int)) ;
+		memset (&bi, 0, sizeof (bi)) ; memset (&ca, 0, sizeof (ca)) ; memset (&cu, 0, sizeof (cu)) ;
+		/* the variable-length fields a getter reports can never exceed what the input could hold (16 KiB structures at most) */
+		if (sf_command (s, SFC_GET_BROADCAST_INFO, &bi, sizeof (bi)) == SF_TRUE && bi.coding_history_size > 0x4000) vh_viol (vh_key ("C03|insane-metadata|bext-coding-history-size|%s", cur_fn), "SFC_GET_BROADCAST_INFO reports coding_history_size %u", bi.coding_history_size) ;
+		if (sf_command (s, SFC_GET_CART_INFO, &ca, sizeof (ca)) == SF_TRUE && ca.tag_text_size > 0x4000) vh_viol (vh_key ("C03|insane-metadata|cart-tag-text-size|%s", cur_fn), "SFC_GET_CART_INFO reports tag_text_size %u (0x%x)", ca.tag_text_size, ca.tag_text_size) ;
+		sf_command (s, SFC_GET_INSTRUMENT, &ins, sizeof (ins)) ;
+		if (sf_command (s, SFC_GET_CUE, &cu, sizeof (cu)) == SF_TRUE && cu.cue_count > 100) vh_viol (vh_key ("C03|insane-metadata|cue-count|%s", cur_fn), "SFC_GET_CUE filled a 100-entry SF_CUES and reports cue_count %u", cu.cue_count) ;
+		sf_command (s, SFC_GET_CUE_COUNT, &cc, sizeof (cc)) ; sf_command (s, SFC_GET_LOOP_INFO, &li, sizeof (li)) ; sf_command (s, SFC_GET_CHANNEL_MAP_INFO, cm, ch * sizeof (int)) ;
 		sf_command (s, SFC_GET_LOG_INFO, log, sizeof (log)) ; sf_command (s, SFC_GET_SIGNAL_MAX, mx, sizeof (double)) ; sf_command (s, SFC_GET_MAX_ALL_CHANNELS, mx, ch * sizeof (double)) ;
 		if (si->seekable && si->frames < 3000000) { sf_command (s, SFC_CALC_SIGNAL_MAX, mx, sizeof (double)) ; sf_command (s, SFC_CALC_NORM_MAX_ALL_CHANNELS, mx, ch * sizeof (double)) ; }
 		sf_current_byterate (s) ;
